@@ -414,6 +414,23 @@ def run_model(case):
                     got, names = 'ESC:' + exc_name(e), []
                 if got != (('n', 10.0), ('n', 6.0)) or len(names) != 1:
                     fails.append(Fail('defined-name', got='%s nodes=%s' % (got, names), exp='B1=10, B2=6, one node', name=key, spelling='dict-key:' + use))
+    elif kind == 'twospell':
+        # one formula reaching the same rectangle through two different spellings: one node, both uses served
+        sp = ["%sA1:B2" % P, "%s$A$1:$B$2" % P, "%sA1:%sB2" % (P, P), "%sA1:A2:%sB2" % (P, P), "%sa1:b2" % P, "%sA1:B1:%sB2" % (P, P), "%sB2:%sA1" % (P, P)]
+        base = {P + 'A1': 1, P + 'A2': 20, P + 'B1': 300, P + 'B2': 4000}
+        for x in sp:
+            for y in sp:
+                n += 1
+                d = dict(base)
+                d[P + 'D1'] = '=SUM(%s)*10+SUM(%s)' % (x, y)
+                d[P + 'D2'] = '=COUNT(%s)&"|"&MAX(%s)' % (y, x)
+                try:
+                    sol = formulas.ExcelModel().from_dict(d).calculate()
+                    got = (val(sol, P + 'D1'), val(sol, P + 'D2'))
+                except Exception as e:
+                    got = 'ESC:' + exc_name(e)
+                if got != (('n', 47531.0), ('t', '4|4000')):
+                    fails.append(Fail('book-spelling', got=str(got), exp='D1=47531, D2="4|4000"', book=x, dir=y, spelling='two-spellings-in-one-formula', digit=False))
     else:
         import openpyxl
         cwd = os.getcwd()
@@ -480,5 +497,5 @@ def run(ctx):
     ctx.explore(run_case, (['fast', ctx.tier, c] for c in cols), chunksize=1, label='fast_paths')
     ctx.explore(run_case, (['books', sh] for sh in ['S', 'My Data', "It's", '1st']), chunksize=1, label='workbook_names')
     ctx.explore(run_case, (['relhost', sh] for sh in ['S', 'T']), chunksize=1, label='relative_text_from_many_hosts')
-    ctx.explore(run_case, (['model', k] for k in ['names', 'paths']), chunksize=1, label='names_and_paths_at_model_level')
+    ctx.explore(run_case, (['model', k] for k in ['names', 'paths', 'twospell']), chunksize=1, label='names_and_paths_at_model_level')
     return {'distinct_ids': len(allids)}
